@@ -29,22 +29,44 @@ def gen_method(rng, stationary=None):
         "inst": inst,
         "filter": rng.choice(FILTERS),
         "sw": rng.choice([1, 2, 2, 3]),
-        "lw": rng.choice([2, 3, 4, 5]),
+        "lw": rng.choice([1, 2, 3, 4, 5]),
         "sthr": [rng.choice([0, 2, 3, 4, 6]) * UNIT, 1],
         "lthr": [rng.choice([0, 0, 1, 2, 3]) * UNIT, 1],
     }
 
 
-def gen_history(rng, nmethods=1, big=False, stationary=None):
-    n = rng.randint(1, 4) if not big else rng.randint(3, 8)
-    ndays = rng.randint(3, 10) if not big else rng.randint(12, 40)
+# first simulated days put into the generators on purpose: New Year inside the history, leap day,
+# day-of-year 366, a history ending on Dec 31, one starting on Jan 1, the same dates one year apart
+BOUNDARY_STARTS = [[2023, 12, 28], [2024, 12, 28], [2024, 2, 26], [2023, 2, 26], [2024, 12, 30], [2022, 12, 31],
+                   [2024, 1, 1], [2023, 12, 31], [2024, 2, 29], [2021, 3, 1]]
+NAME_SETS = [["AIR", "AIR_2"], ["M_1", "M_10"], ["kept", "NA"], ["Logs", "Logs2"], ["a", "a_b"]]
+FU_NAMES = ["FU", "OGI_FU", "AIR_FU", "AIR", "_placeholder_str_x", "f_u_2"]
+
+
+def gen_ids(rng, n):
+    """site id strings: default, numeric strings whose lexicographic and natural order differ, unsorted"""
+    r = rng.random()
+    if r < 0.5:
+        return None
+    if r < 0.75:
+        ids = [str(k) for k in rng.sample(range(1, 120), n)]
+    else:
+        ids = ["site_%d" % k for k in rng.sample(range(0, 30), n)]
+    return ids
+
+
+def gen_history(rng, nmethods=1, big=False, stationary=None, start=None, ndays=None):
+    n = rng.randint(1, 4) if not big else rng.randint(3, 12)
+    if ndays is None:
+        ndays = rng.choice([1, 2, 3, 4, 5, 6, 7, 8, 9, 10]) if not big else rng.randint(12, 40)
     if stationary is None and nmethods > 1:
         stationary = rng.random() < 0.35       # mixed deployment types exit (finding F13b): own witness
     methods = [gen_method(rng, stationary) for _ in range(nmethods)]
     # crew shortage of the follow-up method: one or two crews, short days, long surveys
     workday = rng.choice([4, 8, 8, 12])
-    fu = {"crews": rng.choice([1, 1, 2]), "workday": workday,
-          "times": [rng.choice([60, 120, 240, workday * 60, workday * 60 + 120, workday * 90]) for _ in range(n)]}
+    fu = {"crews": rng.choice([1, 1, 2, 0]), "workday": workday,        # crew_count 0: the code falls back to 1
+          "times": [rng.choice([60, 120, 240, workday * 60, workday * 60 + 120, workday * 90]) for _ in range(n)],
+          "travel": rng.choice([0, 0, 0, 30, [0, 30], 15.0])}
     hot = [rng.random() < 0.6 for _ in range(n)]      # sites detected again and again
     days = []
     for dn in range(ndays):
@@ -57,7 +79,20 @@ def gen_history(rng, nmethods=1, big=False, stationary=None):
                     scr.append([mi, s, k * UNIT, 1])
         tags = [s for s in range(n) if rng.random() < 0.05]
         days.append({"screen": scr, "tag": tags})
-    return {"nsites": n, "methods": methods, "fu": fu, "days": days}
+    h = {"nsites": n, "methods": methods, "fu": fu, "days": days}
+    if start is None and rng.random() < 0.4:
+        start = rng.choice(BOUNDARY_STARTS)
+    if start is not None:
+        h["start"] = list(start)
+    if rng.random() < 0.4:
+        h["names"] = list(rng.choice(NAME_SETS))[:nmethods] if nmethods <= 2 else None
+        h["fu_name"] = rng.choice(FU_NAMES)
+        if h["fu_name"] in (h["names"] or []):
+            h["fu_name"] = "FU"
+    ids = gen_ids(rng, n)
+    if ids is not None:
+        h["ids"] = ids
+    return h
 
 
 # ------------------------------------------------------------------------------------------------
@@ -69,8 +104,20 @@ def correspond(ctx, hists, component="followup"):
 
     runs = []
     all_lines = []
+    failed = 0
     for h in hists:
-        lines, impl, w = F.run_history(h)
+        try:
+            lines, impl, w = F.run_history(h)
+        except (Exception, SystemExit) as e:  # noqa: BLE001
+            # the adapter could not drive the real code (unexpected shape): broken obligation with the
+            # history as input, the other histories are still run
+            failed += 1
+            if failed <= 3:
+                import traceback
+                ctx.broke("C09 adapter could not drive the real code: %s" % type(e).__name__,
+                          traceback.format_exc()[-1200:])
+                ctx.disagree(component, {"history": h}, "a run of the history", "adapter error " + type(e).__name__)
+            continue
         runs.append((h, lines, impl, w))
         all_lines += lines
     model = LeanDriver("drv_followup").run(all_lines)
@@ -165,13 +212,13 @@ def oracle(ctx, hist, w):
                                                                          "queue": [list(map(str, q)) for q in sn["queue"]]})
         if single:
             for k, b in enumerate(sn["inq"]):
-                if bool(b) != (("s%d" % k) in sites):
+                if bool(b) != (k in sites):
                     V("C09:one-outstanding:flag-mismatch", "in-queue flag and queue content differ",
                       {"day": sn["day"], "site": k})
             pool, inpool, _, _ = sn["pools"][0]
             psites = [s for (s, _) in pool]
             for k, b in enumerate(inpool):
-                if bool(b) != (("s%d" % k) in psites) or psites.count("s%d" % k) > 1:
+                if bool(b) != (k in psites) or psites.count(k) > 1:
                     V("C09:one-outstanding:pool-flag-mismatch", "in-pool flag and pool content differ",
                       {"day": sn["day"], "site": k})
                 if b and sn["inq"][k]:
@@ -190,7 +237,7 @@ def oracle(ctx, hist, w):
         mp = hist["methods"][i]
         thr = Fraction(*mp["thr"])
         inst = None if mp.get("inst") is None else Fraction(*mp["inst"])
-        new_request = e["was_pooled"] or not e["was_queued"]
+        new_request = bool(e["new_request"])
         if e["ctx"] == "decision":
             kind = "pool"
         elif new_request:
@@ -216,6 +263,12 @@ def oracle(ctx, hist, w):
                 else:
                     V("C09:provenance", "a queued plan carries a rate that is no released detection of its site", det)
                     break
+            # the detection date the plan reports is the day of an actual screening of that site by this
+            # method with the newest rate of the plan (read from the history, not from the plan)
+            if not any(dn == e["latest"] and mi == i and r == e["rates"][-1]
+                       for (dn, mi, r) in screened.get(e["site"], [])):
+                V("C09:latest-date-not-a-screening", "the detection date behind a queued plan is not the day of a "
+                  "screening survey of that site with that rate", det)
             # the filtered rate is what the redundancy filter says
             exp, exp_long = expected_rates(mp, e)
             if e["rate"] != exp or (e["windows"][0] is not None and e["long"] != exp_long):
@@ -254,21 +307,44 @@ def oracle(ctx, hist, w):
         prop = Fraction(*mp["prop"])
         dec_by_day = {d["day"]: d for d in w.decisions if d["method"] == mi_}
         first = None
+        c_ind = 0
+        prev_snap = {id(b): a for a, b in zip(w.snaps, w.snaps[1:])}
         for sn in w.snaps:
             if sn["op"] != "update" or sn["method"] != mi_:
                 continue
             dn = sn["day"]
             dec = dec_by_day.get(dn)
-            pool_mid = dec["pool"] if dec is not None else [(int(s_[1:]), r_) for (s_, r_) in sn["pools"][mi_][0]]
+            pool_mid = dec["pool"] if dec is not None else list(sn["pools"][mi_][0])
             if first is None and pool_mid:
                 first = dn
+            # the counter of non-zero sub-threshold detections, recomputed from the history: records
+            # released today that are not stale, of sites that were neither in this method's pool nor
+            # in the queue (content of the previous snapshot) when today's update began
+            prev = prev_snap.get(id(sn))
+            pooled = {s_ for (s_, _) in prev["pools"][mi_][0]} if prev else set()
+            queued = {s_ for (_, s_, _) in prev["queue"]} if prev else set()
+            thr_ = Fraction(*mp["thr"])
+            inst_ = None if mp.get("inst") is None else Fraction(*mp["inst"])
+            if not mp["stationary"]:
+                for r in w.releases:
+                    if r["day"] == dn and r["method"] == mi_ and r["tag"] <= r["dc"] \
+                            and r["site"] not in pooled and r["site"] not in queued \
+                            and 0 < r["rate"] < thr_ and not (inst_ is not None and r["rate"] >= inst_):
+                        c_ind += 1
+            if not single and dec is not None:
+                # with several screening methods the in-queue flags and the queue content part ways once a
+                # duplicate request exists (known finding F13); the recomputation is exact for one method only
+                c_ind = dec["count"]
+            if dec is not None and dec["count"] != c_ind:
+                V("C09:proportion:counter", "the counter of sub-threshold detections differs from the number of such "
+                  "released detections since the last decision", {"day": dn, "count": dec["count"], "recomputed": c_ind})
             if dec is not None:
                 seen["decisions"] += 1
                 det = {"day": dn, "pool": [[s, str(r)] for s, r in dec["pool"]], "kept": [[s, str(r)] for s, r in dec["kept"]],
                        "count": dec["count"], "first_independent": first}
                 if first is None or dn - first < mp["delay"]:
                     V("C09:before-delay", "a flagging decision was taken before the delay after the first candidate", det)
-                n, c = len(dec["pool"]), dec["count"]
+                n, c = len(dec["pool"]), c_ind
                 k = ceil_frac(prop * n) if mp["thrFirst"] else min(ceil_frac(prop * c), n)
                 k = max(0, min(k, n))
                 rates = [r for (_, r) in dec["pool"]]
@@ -287,6 +363,7 @@ def oracle(ctx, hist, w):
                             and e["site"] not in kept_sites:
                         V("C09:proportion:flagged-not-kept", "a site outside the kept candidates was flagged", det)
                 first = None
+                c_ind = 0
 
     # --- stale check at release -------------------------------------------------------------------
     for r in w.releases:
@@ -304,8 +381,7 @@ def oracle(ctx, hist, w):
     cap = w.cap * w.fu_method.get_crew_count()
     for fd in w.fu_days:
         head = []
-        for (_, sid, _) in fd["queue_before"][:cap]:
-            s = int(sid[1:])
+        for (_, s, _) in fd["queue_before"][:cap]:
             if s not in head:
                 head.append(s)
         if fd["planned"] != head:
@@ -317,9 +393,14 @@ def oracle(ctx, hist, w):
         seen["complete" if o == "c" else ("inprogress" if o == "p" else "unattended")] += 1
         if o == "c":
             done[v["site"]] = done.get(v["site"], 0) + 1
+        # flagged = a flag event of the site (pool / instant route, from the queue log) not yet consumed by a
+        # completed follow-up survey; computed here, not read from the code's in-queue flags
+        nflag = sum(1 for e in w.queue_log if e["who"].startswith("M") and e["site"] == v["site"]
+                    and (e["ctx"] == "decision" or e["new_request"]) and e["day"] <= v["day"])
+        ndone = sum(1 for u in w.visits if u["site"] == v["site"] and u["outcome"] == "c" and u["day"] < v["day"])
+        if nflag - ndone < 1:
+            V("C09:followup-not-flagged", "the follow-up method planned a site without an unconsumed flag", v)
         if single:
-            if not v["was_queued"]:
-                V("C09:followup-not-flagged", "the follow-up method planned a site that is not flagged", v)
             if v["latest"] + hist["methods"][0]["rd"] > v["day"]:
                 V("C09:before-reporting-delay", "a follow-up visit before the reporting delay had passed", v)
         if o in ("c", "p") and v["tag_before"] > v["latest"]:
